@@ -12,9 +12,11 @@ RULE = ("one case = a batch of instants: (a) complete windows of every integer m
         "(second, day, year, leap day, epoch sign) in 1900..2200, (b) Hypothesis-drawn batches of uniform integer ms, "
         "(c) batches of integer microsecond datetimes (naive / UTC-aware), (d) batches of decimal years; each instant goes "
         "through epoch->datetime->epoch, datetime->epoch->datetime, string formats (with/without fraction, '+00:00'), "
-        "decimal_year and its inverse, CSEPCatalog.get_datetimes. Non-trivial = batch contains an instant with non-zero ms "
+        "decimal_year and its inverse, CSEPCatalog.get_datetimes; about half of the cases run under a non-UTC process time zone (TZ = "
+        "UTC+5:30, US Pacific with DST, UTC-12, UTC+13 via time.tzset()). Non-trivial = batch contains an instant with non-zero ms "
         "part (for (d): a non-integer year); distinct = canonical JSON of the batch description.")
 ASSUMPTIONS = ["range 1900-01-01..2200-01-01 UTC as stated by the property",
+               "the conversions are defined in UTC: the process's local time zone must not change any result",
                "oracle: datetime(1970,1,1,tz=UTC) + timedelta(milliseconds=ms) (integer arithmetic in CPython's datetime)",
                "a datetime finer than 1 ms may map to floor or ceil of its exact ms value ('within one millisecond')",
                "decimal_year strictness is demanded for instants >= 1 ms apart (1 ms = 3e-11 yr >> ulp(2200) = 4.5e-13 yr)"]
